@@ -14,7 +14,10 @@
             !final(self).first_run, // OBL:C13.config_watched.only_the_first_call_returns_at_once
             // the first call never sleeps; a later call does not sleep if the count moved since the last report (the sleep precondition carries the rest)
             old(self).first_run ==> final(env).waits@ == old(env).waits@, // OBL:C13.config_watched.first_call_returns_at_once
-//@ loop 0
+            // one change, one return: after the first call, every return reports a count that was not reported before (a return that leaves `seen` behind makes
+            // the next call return at once for the same change: the worker would apply -- and report the failures of -- one configuration twice)
+            !old(self).first_run ==> final(self).seen != old(self).seen, // OBL:C13+C15.config_watched.a_later_call_returns_only_with_a_count_not_reported_before
+//@ loop each
 invariant
     env.clock@ >= old(env).clock@, env.incs@ >= old(env).incs@,
     self.first_run == old(self).first_run,
